@@ -807,4 +807,22 @@ func init() {
 		rule: "stress engine: rapid-generated concurrent programs (2-8 RPCs started concurrently, a sender and a receiver goroutine per RPC on both ends, readers of Header/Trailer and of grpc.Header/grpc.Trailer targets right after their completion signal, cancellations racing with completion, Close / Stop / GracefulStop / InitiateShutdown / carrier break / new tunnels / registry queries fired mid-run from other goroutines, delay injection at up to four yield points) run free on 16 Ps in a binary built with -race; oracle: zero race reports, zero panics, no hang, message integrity; non-trivial = at least two RPCs or a teardown event overlapped the run"})
 }
 
+func init() {
+	// C13 and C14 quantify over the runs explored for the other properties: the union of their profiles
+	union := func(prop string, mon Monitor, nt func(*Case, *Trace) bool) {
+		addParts(prop,
+			part{name: "u_c02", gen: genC02, monitors: []Monitor{mon}, labels: commonLabels, nontrivial: nt, quick: 250, thorough: 8000},
+			part{name: "u_c03", gen: genC03, monitors: []Monitor{mon}, labels: labelsC03, nontrivial: nt, quick: 250, thorough: 8000},
+			part{name: "u_c04", gen: genC04, monitors: []Monitor{mon}, labels: commonLabels, nontrivial: nt, quick: 250, thorough: 8000},
+			part{name: "u_c07", gen: genC07, monitors: []Monitor{mon}, labels: commonLabels, nontrivial: nt, quick: 250, thorough: 8000},
+			part{name: "u_c10", gen: genC10, monitors: []Monitor{mon}, labels: commonLabels, nontrivial: nt, quick: 250, thorough: 8000},
+			part{name: "u_c16app", gen: genC16App, monitors: []Monitor{mon}, labels: commonLabels, nontrivial: nt, quick: 150, thorough: 4000},
+			part{name: "u_c05sim", gen: genC05Sim, monitors: []Monitor{mon}, labels: commonLabels, nontrivial: nt, quick: 30, thorough: 1000},
+		)
+	}
+	union("C13", monC13, ntMultiRPC)
+	union("C14", monC14, ntAbnormalEnd)
+	addParts("C14", part{name: "u_c12", gen: genC12, monitors: []Monitor{monC14}, labels: labelsC12, nontrivial: func(c *Case, tr *Trace) bool { return len(c.Reg) > 3 }, quick: 250, thorough: 8000})
+}
+
 var _ = strings.Join
